@@ -54,6 +54,14 @@ def mv_records(rnd, thorough):
             recs.append(call(fn, name, [a2.copy(), b2.copy()], mode))                              # 2-D
             recs.append(call(fn, name, [vals.reshape(8, 1).copy(), vals.reshape(1, 8).copy()], mode))   # broadcasting
             recs.append(call(fn, name, [vals.reshape(1, 8, 1).copy(), vals.reshape(2, 1, 4).copy()[:, :, :] % 8], mode))
+    # the SAME array object on two operands (x op x is not 0 / x in a multi-valued algebra: XOR(X, X) = X, XOR(R, R) = P)
+    for mode in (None, 'fresh'):
+        for name in ('and', 'or', 'xor'):
+            fn = fns[name + '_' if name != 'xor' else 'xor']
+            x = vals.copy()
+            r = call(fn, name, [x, x], mode)
+            r['mode'] = 'sameobj'
+            recs.append(r)
     # out= given as a non-contiguous view of a larger buffer (every second column, a transposed buffer)
     for name in ('not', 'and', 'or', 'xor'):
         fn = fns[name + '_' if name != 'xor' else 'xor']
@@ -162,6 +170,30 @@ def bp_records(rnd, thorough):
                         recs.append(rec)
                 if not thorough and k == 4 and off >= 2:
                     break
+        # the same array object on several operands
+        for k in (2, 3, 4):
+            allv = np.arange(nv, dtype=np.uint8)
+            a = logic.mv_to_bp(allv.reshape(1, -1))[..., :nplanes, :]
+            for name in ('and', 'or', 'xor'):
+                fn = fns[name + '_' if name != 'xor' else 'xor']
+                for pat in ([0] * k, [0, 1] * 2):
+                    pat = pat[:k]
+                    b = logic.mv_to_bp(((allv + 3) % nv).reshape(1, -1))[..., :nplanes, :]
+                    objs = [a, b]
+                    vv = [allv, (allv + 3) % nv]
+                    rec = dict(fn=name, form=form, shapes=[], rshape=[], raised=False, mode='sameobj', ins=[vv[j].astype(int).tolist() for j in pat])
+                    try:
+                        out = np.full_like(a, 0x55)
+                        r = fn(out, *[objs[j] for j in pat])
+                        full = np.zeros((1, 3, out.shape[-1]), dtype=np.uint8)
+                        full[..., :nplanes, :] = r[..., :nplanes, :]
+                        full2 = np.zeros((1, 3, out.shape[-1]), dtype=np.uint8)
+                        full2[..., :nplanes, :] = out[..., :nplanes, :]
+                        rec['res'] = logic.bp_to_mv(full)[0, :nv].astype(int).tolist()
+                        rec['arr'] = logic.bp_to_mv(full2)[0, :nv].astype(int).tolist()
+                    except Exception as e:
+                        rec.update(raised=True, res=[], arr=[], err=repr(e)[:200])
+                    recs.append(rec)
     return recs
 
 
@@ -191,7 +223,7 @@ def main(tier=None, replay=None):
         ck.count('%s-%s-k%d' % (x['form'], x['fn'], len(x['ins'])))
         ck.count('mode:' + x['mode'])
         ck.nontrivial.add(sig(x))
-    ck.need_cover(['bp8-and-k4', 'bp4-xor-k3', 'bp8-not-k1', 'mv-and-k2', 'mv-not-k1', 'mode:dirty', 'mode:fresh', 'mode:fresh-int64', 'mode:dirty-int32', 'mode:alias', 'mode:None', 'mode:view-stride', 'mode:view-transpose', 'mode:kary', 'mode:planes3'])
+    ck.need_cover(['bp8-and-k4', 'bp4-xor-k3', 'bp8-not-k1', 'mv-and-k2', 'mv-not-k1', 'mode:dirty', 'mode:fresh', 'mode:fresh-int64', 'mode:dirty-int32', 'mode:alias', 'mode:None', 'mode:view-stride', 'mode:view-transpose', 'mode:kary', 'mode:planes3', 'mode:sameobj'])
     ck.sample(dict(fn=recs[5]['fn'], form=recs[5]['form'], shapes=recs[5]['shapes'], ins=[i[:8] for i in recs[5]['ins']], res=recs[5]['res'][:8]))
     ck.extra['exhaustive'] = True
     ck.assumptions += ['public API only: mv_* are unary/binary, bp*v_* take 1..4 operands', 'TLC, JSON reader, NumPy broadcasting used to flatten operands']
